@@ -120,3 +120,63 @@ def ord1(units, R):
                  '%s(%s, ...) at line %d runs between the lookup and the use at line %d: the resolved node may have been '
                  'moved or released' % (callee_name(bad[0]), root, bad[0]['loc'][0], bad[1].line), key='stale:%s' % var['n'])
     R.floor('ORD1', 'document lookups held in a local', n, 3)
+
+
+def inputs_only_relinked(units, R, roots=('create_patches', 'generate_merge_patch', 'compare_json')):
+    """Patch / merge-patch generation and the patch `test` comparison leave their input documents alone except for
+    re-linking by sort_object: no store goes through a pointer derived from the input parameters, and input nodes are
+    only handed to callees that take them as const or that are the sorter / the recursion itself."""
+    u = units['cJSON_Utils.c']
+    n = 0
+    MAY_TAKE = {'sort_object', 'create_patches', 'generate_merge_patch', 'compare_json', 'compare_strings', 'compose_patch',
+                'cJSON_IsObject', 'cJSON_IsArray', 'cJSON_IsString', 'cJSON_IsNull', 'cJSON_IsNumber'}
+    for name in roots:
+        fn = u.fn(name)
+        ins = {p['d'] for p in fn.params if 'struct cJSON *' in u.ty(p['ty'])['s'] and p['n'] != 'patches'}
+        # locals loaded from the inputs
+        derived = set(ins)
+        changed = True
+        while changed:
+            changed = False
+            for a in assignments(fn):
+                if is_ref(a['l']) and strip_casts(a['l'])['d'] not in derived:
+                    for x in walk(a['r']):
+                        if x.get('k') == 'ref' and x.get('d') in derived and 'cJSON' in u.ty(strip_casts(a['l'])['ty'])['s']:
+                            derived.add(strip_casts(a['l'])['d'])
+                            changed = True
+                            break
+            for d in fn.locals():
+                if d['d'] not in derived and 'init' in d and 'cJSON' in u.ty(d['ty'])['s']:
+                    if any(x.get('k') == 'ref' and x.get('d') in derived for x in walk(d['init'])):
+                        derived.add(d['d'])
+                        changed = True
+        for a in assignments(fn):
+            l = strip_casts(a['l'])
+            if l.get('k') in ('mem', 'idx') or (l.get('k') == 'un' and l['op'] == '*'):
+                b = l
+                while b.get('k') in ('mem', 'idx') or (b.get('k') == 'un' and b['op'] == '*'):
+                    b = strip_casts(b.get('b') or b.get('e'))
+                if b.get('k') == 'ref' and b.get('d') in derived:
+                    n += 1
+                    R.ob('INP', fn, a, 'no store into an input document: %s' % expr_str(a)[:50], False,
+                         'generation must leave both inputs equal in value to what they were', key='store:' + expr_str(l)[:40])
+        for c in fn.calls():
+            cn = callee_name(c)
+            for i, arg in enumerate(c['args']):
+                a0 = strip_casts(arg)
+                if a0.get('k') == 'ref' and a0.get('d') in derived:
+                    n += 1
+                    t = u.ty(arg['ty'])
+                    callee = u.functions.get(cn)
+                    const_param = False
+                    if callee is not None and i < len(callee.params):
+                        const_param = bool(u.ty(callee.params[i]['ty']).get('pointee_const'))
+                    else:
+                        for d in u.fdecls:
+                            if d['name'] == cn and i < len(d['params']):
+                                const_param = bool(u.ty(d['params'][i]['ty']).get('pointee_const'))
+                    ok = const_param or cn in MAY_TAKE
+                    R.ob('INP', fn, c, 'input node %s handed to %s' % (a0['n'], cn), ok,
+                         'const parameter' if const_param else ('sorter/recursion/comparator' if ok else
+                         '%s takes a mutable node of an input document' % cn), key='arg:%s:%s' % (cn, a0['n']))
+    R.floor('INP', 'uses of input nodes examined', n, 10)
